@@ -937,6 +937,62 @@ impl Family for Promo2 {
     }
 }
 
+/// CASTLE2: K e1 with one or both rooks and rights (the five CASTLE configurations), the enemy king
+/// anywhere and TWO enemy pieces of every pair of kinds (P N B R Q) on the three ranks in front of
+/// the king (a1..h3): squares of the castling path attacked twice, attacked and blocked, attacked
+/// by one piece and shielded by the other. Both sides to move.
+pub struct Castle2;
+impl Family for Castle2 {
+    fn name(&self) -> String {
+        "CASTLE2".into()
+    }
+    fn len(&self) -> u64 {
+        5 * 64 * 25 * 24 * 24 * 2
+    }
+    fn decode(&self, mut i: u64) -> Option<Pos> {
+        let mut take = |n: u64| -> u64 {
+            let v = i % n;
+            i /= n;
+            v
+        };
+        let cfg = CASTLE_CONFIGS[take(5) as usize];
+        let bk = take(64) as u8;
+        let kinds = take(25);
+        let s1 = 40 + take(24) as u8;
+        let s2 = 40 + take(24) as u8;
+        let stm = take(2) as u8;
+        if s1 >= s2 {
+            return None;
+        }
+        let k = [PAWN, KNIGHT, BISHOP, ROOK, QUEEN];
+        let (k1, k2) = (k[(kinds % 5) as usize], k[(kinds / 5) as usize]);
+        let mut p = Pos::empty();
+        p.stm = stm;
+        p.board[60] = pc(WHITE, KING);
+        if cfg.0 {
+            p.board[56] = pc(WHITE, ROOK);
+        }
+        if cfg.1 {
+            p.board[63] = pc(WHITE, ROOK);
+        }
+        p.castle = cfg.2;
+        for (sq, piece) in [(bk, pc(BLACK, KING)), (s1, pc(BLACK, k1)), (s2, pc(BLACK, k2))] {
+            if p.board[sq as usize] != EMPTY {
+                return None;
+            }
+            if pc_kind(piece) == PAWN && row_of(sq) == 7 {
+                return None;
+            }
+            p.board[sq as usize] = piece;
+        }
+        if p.is_legal_position() {
+            Some(p)
+        } else {
+            None
+        }
+    }
+}
+
 /// PAWN7: a white pawn on its 7th rank (every file), both kings, one further white piece and one
 /// black piece (every pair of kinds from Q R B N) anywhere, both sides to move: promotions and
 /// under-promotions with something to lose or to win on the way.
